@@ -118,6 +118,7 @@ def dml_programs(tier):
     yield {"calls": [["from", T], ["select", [fa]], ["where", ["cmp", "=", fa, raw(1)]], ["fetch_next", 5], ["offset", 2]]}
     yield {"calls": [["from", T], ["select", [fa]], ["where", ["cmp", "=", fa, raw(1)]], ["top", 5]]}
     yield from alias_reuse_programs()
+    yield from multi_branch_programs()
     yield {"calls": [["from", T], ["select", [fa, ["agg", "SUM", fb]]], ["where", ["cmp", "=", fa, raw(1)]],
                      ["groupby", [["as", ["arith", "+", fa, raw(2)], "g"]]], ["select", [["as", ["arith", "+", fa, raw(2)], "g"]]]]}
 
@@ -140,6 +141,26 @@ def alias_reuse_programs():
                 yield {"calls": [["from", T], ["select", [["agg", "SUM", fb]]]] + extra + [["groupby", [al]]] + tail}
         yield {"calls": [["from", ["q", "sq0", {"calls": [["from", T], ["select", [al, fb]], ["orderby", [al], "desc"], ["limit", 5]]}, "sq0"]],
                          ["select", [["f", "sq0", "s1"]]], ["where", ["cmp", "=", ["f", "sq0", "s1"], raw(9)]]]}
+
+
+def multi_branch_programs():
+    """terms with several value-carrying branches / operands (CASE with 2-3 WHENs, nested CASE, functions with 3-4 arguments,
+    IN lists, BETWEEN, tuples): the values must be collected in the order the placeholders are written"""
+    c2 = ["case", [[["cmp", "=", fa, raw(11)], raw("s'x")], [["cmp", "=", fb, raw(7)], raw(2.5)]], raw(0)]
+    c3 = ["case", [[["cmp", "=", fa, raw(1)], raw(10)], [["cmp", "=", fa, raw(2)], raw(20)], [["cmp", ">", fb, raw(3)], raw(30)]], raw(40)]
+    c3n = ["case", [[["cmp", "=", fa, raw(1)], raw(10)], [["cmp", "=", fa, raw(2)], c2]], None]
+    co = ["coalesce", [fa, raw(1), fb, raw("z")]]
+    tp = ["tuple", [raw(1), fa, raw("m"), raw(2.5)]]
+    for e in (c2, c3, c3n, co):
+        yield {"calls": [["from", T], ["select", [e, fb]], ["where", ["cmp", ">", fb, raw(99)]]]}
+        yield {"calls": [["from", T], ["select", [fb]], ["where", ["cmp", "=", e, raw(5)]], ["limit", 3]]}
+        yield {"calls": [["from", T], ["select", [fb]], ["orderby", [e], "asc"], ["limit", 3], ["offset", 1]]}
+        yield {"calls": [["update", T], ["set", "a", e], ["where", ["cmp", "=", fid, raw(3)]]]}
+        yield {"calls": [["into", T], ["insert", [e, raw("tail")]]]}
+        yield {"calls": [["from", T], ["select", [["agg", "SUM", e]]], ["groupby", [fb]], ["having", ["cmp", ">", ["agg", "MAX", e], raw(8)]]]}
+    yield {"calls": [["from", T], ["select", [tp]], ["where", ["logic", "AND", ["between", fa, raw(1), raw(9)], ["in", fb, [raw("p"), raw("q"), raw("r")]]]]]}
+    yield {"calls": [["from", T], ["select", [fa]], ["where", ["logic", "OR", ["logic", "AND", ["cmp", "=", fa, raw(1)], ["cmp", "=", fb, raw(2)]],
+                                                                ["logic", "AND", ["cmp", "=", fa, raw(3)], ["not", ["cmp", "=", fb, raw(4)]]]]]]}
 
 
 def setop_programs(tier):
